@@ -31,7 +31,8 @@ def build_demo(wt, src, exe):
     b = os.path.join(wt, "_b")
     regs = sh("find %s/src/CMakeFiles/stir_registries.dir -name '*.o'" % b, shell=True).stdout.split()
     libs = sh("find %s/src -name '*.a'" % b, shell=True).stdout.split()
-    cmd = ["g++", "-std=gnu++17", "-O1", "-w", "-DNDEBUG", "-I", b + "/src/include", "-I", wt + "/src/include",
+    omp = ["-fopenmp"] if os.environ.get("MUT_OPENMP") == "1" else []
+    cmd = ["g++", "-std=gnu++17", "-O1", "-w", "-DNDEBUG"] + omp + ["-I", b + "/src/include", "-I", wt + "/src/include",
            "-I", "/usr/include/hdf5/serial", src, "-o", exe] + regs + ["-Wl,--start-group"] + libs + ["-Wl,--end-group",
            "-L/usr/lib/x86_64-linux-gnu/hdf5/serial", "-lhdf5_cpp", "-lhdf5", "-lX11", "-lcurses", "-lz", "-lpthread"]
     r = sh(cmd)
